@@ -419,6 +419,6 @@ func (c *Ctx) tileIndexRule() int {
 			}
 		}
 	}
-	c.C.Floor("FLOWS-TILEIDX", n-c.controlCount("FLOWS-TILEIDX"), 3)
+	c.C.Floor("FLOWS-TILEIDX", n-c.controlCount("FLOWS-TILEIDX"), 1)
 	return n
 }
